@@ -621,7 +621,7 @@ func sectionWire(rng *vh.Rng) {
 		"write packets (0..3 events, field texts incl. quoted values around the 255-byte limit), query requests, api events, stored records and query results encoded by the real encoders; for each: the valid bytes, EVERY truncation, EVERY single length/count field replaced by {0,1,len±1,0x7f,0x80,2^31,2^63-11,2^63-2,2^63-1,2^63,2^64-2,2^64-1}; plus random byte strings; real decoder under recover+deadline vs Lean model (outcome kind and decoded content); non-trivial = non-empty input, distinct by bytes")
 	n := 330
 	if args.Thorough {
-		n = 4000
+		n = 3200
 	}
 	var cases []wireCase
 	var encLines, encImpl []string
